@@ -155,6 +155,10 @@ def run_case(case, ctx):
         Zn = [(z[0] if exact else float(z[0])) for z in Zq]
     else:
         Zn = [np.array([c if exact else float(c) for c in z], dtype=object if exact else "float64") for z in Zq]
+    if not exact and kind != "toofew" and all(c.denominator == 1 for z in Zq for c in z) and len(Zq) % 2 == 0:
+        # integral data handed over as one integer numpy array: the fitted control points are not integers
+        Zn = np.array([int(z[0]) for z in Zq] if dim == 0 else [[int(c) for c in z] for z in Zq], dtype="int64")
+        ctx.count("int64_data_arrays")
     pre = lib.curve_digest(curve)
     args = (Zn, nodes_n) if explicit else (Zn,)
     o = call(curve.fit_points, *args)
